@@ -291,6 +291,9 @@ def rich_doc(fmt, seed=0):
     if fmt in ("docx", "odt", "html", "mhtml", "epub", "rtf"):
         d = flow_doc(blocks, props=props)
         if fmt == "docx":
+            # paragraph styles whose names differ only in letter case (order-sensitive collections)
+            d["blocks"] += [["p", [["r", 10]], {"style": "Note"}], ["p", [["r", 11]], {"style": "NOTE"}],
+                            ["p", [["r", 12]], {"style": "note"}]]
             d["images"] = [{"target": "media/image1.png", "part": "word/media/image1.png", "data": img1},
                            {"target": "media/image2.jpeg", "part": "word/media/image2.jpeg", "data": img2}]
         if fmt == "odt":
@@ -305,7 +308,7 @@ def rich_doc(fmt, seed=0):
                         ["tbl", [[[[["r", 4]]], [[["r", 5]]]], [[[["r", 6]]], [[["r", 7]]]]]]],
              "notes": [["r", 8]] if fmt != "odg" else [],
              "images": [{"target": pre + "i1.png", "part": part + "i1.png", "data": img1}]},
-            {"shapes": [["text", [[["r", 9]]]]], "notes": [],
+            {"shapes": [["text", [[["r", 9]]]]], "notes": [], "comments": [10] if fmt == "pptx" else [],
              "images": [{"target": pre + "i2.jpeg", "part": part + "i2.jpeg", "data": img2}]}]}
     if fmt in ("xlsx", "ods"):
         pre = "../media/" if fmt == "xlsx" else "Pictures/"
